@@ -86,6 +86,18 @@ def main():
                 run(f"{cname}.decay badtimeunit={u!r} {name}", lambda: cls({name: 1.0}, "num").decay(1.0, u).contents)
                 run(f"{cname}.cumulative_decays badtimeunit={u!r} {name}", lambda: cls({name: 1.0}, "num").cumulative_decays(1.0, u))
             run(f"Inventory.decay_time_series badtimeunit={u!r} {name}", lambda: rd.Inventory({name: 1.0}, "num").decay_time_series(1.0, time_units=u, npoints=2))
+    # the same read-outs on an EMPTY inventory (nothing to convert): one combined row, recorded as a known finding
+    acc = []
+    for cname, cls in (("Inventory", rd.Inventory), ("InventoryHP", rd.InventoryHP)):
+        e0 = cls({}, "num")
+        for meth, arg in (("activities", "bogus"), ("masses", "bogus"), ("moles", "bogus"), ("half_lives", "bogus")):
+            try:
+                getattr(e0, meth)(arg); acc.append(f"{cname}.{meth}")
+            except ValueError:
+                pass
+            except Exception as ex:
+                acc.append(f"{cname}.{meth}:{type(ex).__name__}")
+    out.append(["empty-inventory read-outs with an unsupported unit", "accepted" if acc else "ValueError", ", ".join(acc)])
     # read_csv rows
     tmp = tempfile.mkdtemp(prefix="rdverif_")
     try:
